@@ -25,6 +25,17 @@ func corpus() []corpusEntry {
 			files: one("union U { 1: i32 a = 1, 2: i32 b = 2 }\n")},
 		{name: "typedef 2-cycle next to a constant A.x (used to overflow the stack)", kind: 1, rule: idlmut.TypedefCycle, strict: true, site: "typedef/len2+const",
 			files: one("typedef B A\ntypedef A B\nconst i32 c = A.x\n")},
+		// an unresolvable chain in a file whose OTHER typedef references do resolve (some only
+		// in a later round): the no-progress test must look at the chain, not at the total
+		{name: "typedef 2-cycle next to a typedef chain that resolves", kind: 1, rule: idlmut.TypedefCycle, strict: true, site: "typedef/len2+resolvable",
+			files: one("typedef Ping Pong\ntypedef Pong Ping\ntypedef R1 R2\ntypedef R0 R1\ntypedef i32 R0\nstruct S { 1: R2 a, 2: list<R1> b }\n")},
+		{name: "typedef 2-cycle next to one resolvable typedef of a typedef, cycle declared last", kind: 1, rule: idlmut.TypedefCycle, strict: true, site: "typedef/len2+resolvable",
+			files: one("typedef i32 Base\ntypedef Base Alias\ntypedef Ping Pong\ntypedef Pong Ping\n")},
+		{name: "typedef 2-cycle next to a resolvable chain in an INCLUDED file", kind: 1, rule: idlmut.TypedefCycle, strict: true, site: "typedef/len2+resolvable",
+			position: "used-include", edited: "inc.thrift", depth: 1,
+			files: map[string]string{
+				"main.thrift": "include \"inc.thrift\"\nstruct S { 1: inc.Alias a }\n",
+				"inc.thrift":  "typedef i32 Base\ntypedef Base Alias\ntypedef Ping Pong\ntypedef Pong Ping\n"}},
 		{name: "typedef T T", kind: 1, rule: idlmut.TypedefCycle, strict: true, site: "typedef/len1",
 			files: one("typedef T T\n")},
 		{name: "typedef 3-cycle with a chain into it used by a struct", kind: 1, rule: idlmut.TypedefCycle, strict: true, site: "typedef/len3+chain",
@@ -77,6 +88,31 @@ func corpus() []corpusEntry {
 				"inc.thrift":  "struct T { 1: i32 a\n"}},
 		{name: "missing include file", kind: 2, rule: idlmut.MissingInclude, site: "include",
 			files: one("include \"nosuch_file.thrift\"\nstruct S { 1: i32 a }\n")},
+		// the include string "base.thrift" resolves for main (next to it) and is missing for
+		// sub/x.thrift; the run starts in the directory ABOVE the tree, so the working
+		// directory has no base.thrift either
+		{name: "include string found by an earlier includer, missing for a later one in another directory (cwd above the tree)", kind: 2,
+			rule: idlmut.MissingInclude, site: "shadowed-by-other-directory/cwd-above", main: "tree/main.thrift",
+			position: "used-include", edited: "tree/sub/x.thrift", depth: 1,
+			files: map[string]string{
+				"tree/main.thrift":  "include \"base.thrift\"\ninclude \"sub/x.thrift\"\nstruct S { 1: base.B b, 2: x.X x }\n",
+				"tree/base.thrift":  "struct B { 1: i32 a }\n",
+				"tree/sub/x.thrift": "include \"base.thrift\"\nstruct X { 1: i32 a }\n"}},
+		{name: "include string found next to an earlier includer, missing for a later one (cwd = tree root, includes at depth 2)", kind: 2,
+			rule: idlmut.MissingInclude, site: "shadowed-by-other-directory", position: "used-include", edited: "b/other.thrift", depth: 1,
+			files: map[string]string{
+				"main.thrift":    "include \"a/user.thrift\"\ninclude \"b/other.thrift\"\nstruct S { 1: user.U u, 2: other.O o }\n",
+				"a/lib.thrift":   "struct L { 1: i32 a }\n",
+				"a/user.thrift":  "include \"lib.thrift\"\nstruct U { 1: lib.L l }\n",
+				"b/other.thrift": "include \"lib.thrift\"\nstruct O { 1: i32 a }\n"}},
+		{name: "include string found next to an earlier includer, missing three levels down", kind: 2,
+			rule: idlmut.MissingInclude, site: "shadowed-by-other-directory/deep", position: "unused-include", edited: "b/in/other.thrift", depth: 2,
+			files: map[string]string{
+				"main.thrift":       "include \"a/user.thrift\"\ninclude \"b/mid.thrift\"\nstruct S { 1: i32 a }\n",
+				"a/lib.thrift":      "struct L { 1: i32 a }\n",
+				"a/user.thrift":     "include \"lib.thrift\"\nstruct U { 1: i32 a }\n",
+				"b/mid.thrift":      "include \"in/other.thrift\"\nstruct M { 1: i32 a }\n",
+				"b/in/other.thrift": "include \"lib.thrift\"\nstruct O { 1: i32 a }\n"}},
 	}
 	// near misses: valid trees at the boundary of a rule; both the model and the binary
 	// must ACCEPT them (an over-eager check shows up as a correspondence break)
@@ -101,6 +137,13 @@ func corpus() []corpusEntry {
 		c = append(c, corpusEntry{name: "near miss: " + n.name, kind: 0, site: "near-miss", files: one(n.text)})
 	}
 	c = append(c,
+		corpusEntry{name: "near miss: one include string resolving to a different file for each includer, and a long resolvable typedef chain", kind: 0, site: "near-miss",
+			files: map[string]string{
+				"main.thrift":    "include \"a/user.thrift\"\ninclude \"b/other.thrift\"\ntypedef R2 R3\ntypedef R1 R2\ntypedef R0 R1\ntypedef i32 R0\nstruct S { 1: user.U u, 2: other.O o, 3: R3 r }\n",
+				"a/lib.thrift":   "namespace go a.lib\nstruct L { 1: i32 a }\n",
+				"a/user.thrift":  "include \"lib.thrift\"\nstruct U { 1: lib.L l }\n",
+				"b/lib.thrift":   "namespace go b.lib\nstruct LB { 1: string s }\n",
+				"b/other.thrift": "include \"lib.thrift\"\nstruct O { 1: lib.LB l }\n"}},
 		corpusEntry{name: "near miss: include diamond, equal definition names in different files, qualified base service and constant", kind: 0, site: "near-miss",
 			files: map[string]string{
 				"main.thrift": "include \"l.thrift\"\ninclude \"r.thrift\"\nstruct S { 1: l.S a, 2: r.S b, 3: i32 c = l.K }\nservice Svc extends l.Base { void g() }\n",
